@@ -3,7 +3,9 @@
 //! An executor reads one JSON request per line on stdin, performs exactly the named
 //! library call, and writes one JSON response per line. It holds no expectations.
 
+pub mod coreops;
 pub mod fmtgrid;
+pub mod probe;
 pub mod synth;
 
 use std::io::{BufRead, Write};
